@@ -38,27 +38,10 @@ def signature_of(prog, fn):
 
 
 def zero_split(prog, R, fn):
-    """The split on `file_length.is_zero()` where file_length comes from EXTEND (seek to end)."""
+    """The split on `file_length == 0` (any spelling) where file_length comes from EXTEND (seek to end)."""
+    from .util import zero_splits
     ext = R.need("EXTEND")
-
-    def pred(o):
-        if o.kind != "call" or not (o.data.get("callee") or "").endswith("::is_zero"):
-            return False
-        a = origins(prog, fn, o.data["args"][0], at=o.block)
-        return bool(a) and all(is_call_to(prog, fn, x, ext) for x in a)
-    hits = find_bool_split(prog, fn, pred)
-    if hits:
-        return hits
-    # the same test spelled as a comparison with zero:  length.as_value() == 0  /  != 0  /  0 == length
-    from . import k7
-    out = []
-    for (sb, t_true, t_false, (op, X, Y)) in k7.conditions(prog, fn):
-        if op not in ("Eq", "Ne") or Y is None:
-            continue
-        for a, z in ((X, Y), (Y, X)):
-            if z == ("c", 0) and a[0] == "call" and a[1] == ext.id:
-                out.append({"block": sb, "cond": [], "true": t_true if op == "Eq" else t_false, "false": t_false if op == "Eq" else t_true})
-    return out
+    return zero_splits(prog, fn, lambda a: all(is_call_to(prog, fn, x, ext) for x in a))
 
 
 def _check_own(ctx):
